@@ -200,7 +200,7 @@ def report(ctx, rejections, runs, trace, mode="run"):
 def selftest(ctx, trace, runs, rejected_ids):
     """Binding self-test: corrupt recorded fields of accepted runs; every corruption must be rejected
     with the expected clause, an untouched control run must be accepted."""
-    good = [r for r in runs if r["run"] not in rejected_ids and r["outcome"] != "timeout"]
+    good = [r for r in runs if r["run"] not in rejected_ids and r["outcome"] not in ("timeout", "abandoned")]
 
     def pick(pred):
         for r in good:
@@ -291,12 +291,16 @@ def run(ctx):
     records, trace = drive(ctx, binary, cases, "main", env={"OPTIM_TARGET": str(t["target"])})
     runs = [r for r in records if r.get("kind") == "run"]
     summ = [r for r in records if r.get("kind") == "summary"][-1]
+    abandoned = [r for r in runs if r["outcome"] == "abandoned"]
+    if len(abandoned) > max(3, len(runs) // 50):
+        raise vlib.Infra("%d of %d runs abandoned after 12000 callbacks (e.g. %s)" % (len(abandoned), len(runs), abandoned[0]["key"]))
+    ctx.extra["abandoned_slow_runs"] = sorted(collections.Counter("%s/%s/%s" % (r["routine"], r["family"], r["cons"]) for r in abandoned).items())
     # 4. every run must be a behaviour of the contract
     rejections, nev = validate(ctx, trace, "trace", t["chunk"])
     ctx.log("%d cases, %d runs (universe %d), %d events; %d runs rejected" % (ncases, len(runs), summ["universe"], nev, len(rejections)))
     report(ctx, rejections, runs, trace)
     rejected_ids = {r["run"] for r in rejections}
-    ctx.traces += len(runs) - len(rejected_ids)
+    ctx.traces += len(runs) - len(rejected_ids) - len(abandoned)
     # 5. binding self-test
     ctx.extra["binding_selftest"] = selftest(ctx, trace, runs, rejected_ids)
     # 6. vacuity: the interesting outcomes really occur
@@ -342,7 +346,8 @@ def run(ctx):
         "the iteration cap justifies a return as soon as the number of objective evaluations reaches it (sound, never a false alarm; weaker than the routine's own counter)",
         "Blahut has a fixed number of steps: its returns are checked against the Arimoto rate bound I(p_N) >= C - D(p*||p0)/N instead of a stopping condition",
         "Newton with HessianModification Eigenvalue panics in every run that needs a step (qrAlgorithm called without ComputeU); a panic is an error outcome, so the option is effectively unexplored",
-        "runs that exceed 12000 callback events or 15 s are reported with what=timeout (non-termination is property C20)",
+        "a run that exceeds 12000 callbacks while repeating the same two points, or 15 s wall time, is reported with what=timeout; a run that "
+        "exceeds 12000 callbacks while still visiting new points is abandoned without verdict (slow convergence; non-termination is property C20)",
     ]
     return ctx.finish(
         rule="TLC prints every member of the objective families within the bounds (exhaustive); a run = (case, start point, routine, variant, "
